@@ -18,8 +18,9 @@ import (
 
 // Entry is a file or directory.
 type Entry struct {
-	Dir     bool
-	Content string
+	Dir      bool
+	Content  string
+	FailRead bool // reading the file fails after it was opened (it vanished, I/O error)
 }
 
 // Effect is one mutating call.
@@ -333,6 +334,9 @@ func FileWriteTo(f *os.File, w io.Writer) (int64, error) {
 	}
 	if e.Dir {
 		return 0, &fs.PathError{Op: "read", Path: h.path, Err: fs.ErrInvalid}
+	}
+	if e.FailRead {
+		return 0, &fs.PathError{Op: "read", Path: h.path, Err: fs.ErrClosed}
 	}
 	rest := e.Content[h.off:]
 	h.off = len(e.Content)
